@@ -566,6 +566,14 @@ def plan_c07(wd, rng, T, mat):
                   {"infinite": True, "stop_after_ms": 30}):
             steps.append(dict(g, t="go"))
         mk(inproc, "inproc", steps)
+    # thousands of near-zero-time searches on one engine, after a deeper one: whatever is carried from go to go (node counters,
+    # tables, stored pv) must never cost an answer
+    # (the engine polls its flags by node count: the burst runs until several multiples of the polling interval have gone by)
+    rich = [g for g in mat.items if len(g["legal"]) >= 15]
+    bpos = [{"fen": START, "moves": []}] + [{"fen": g["fen"], "moves": []} for g in rng.sample(rich, min(2, len(rich)))]
+    for gop in ({"wtime": 60000, "btime": 60000, "winc": 0, "binc": 0}, {"movetime": 0}) if T else ({"wtime": 60000, "btime": 60000, "winc": 0, "binc": 0},):
+        mk(inproc, "inproc", [{"t": "position", "fen": START, "moves": []}, {"t": "go", "depth": 4},
+                              {"t": "burst", "n": 200000 if T else 40000, "nodes": 1050000 if T else 330000, "positions": bpos, "go": gop}])
     mk(binary, "binary", [{"t": "position", "fen": START, "moves": list(SHUFFLE)}, {"t": "go", "depth": 2}, {"t": "go", "movetime": 0},
                            {"t": "go", "wtime": 50, "btime": 50, "winc": 0, "binc": 0}])
     return inproc, binary, sweeps
